@@ -205,11 +205,14 @@ def gen_tensor(rng, kind):
         a, b = dyadic(rng), dyadic(rng)
         d = 2.0 ** -rng.randint(8, 44) * rng.choice([1, -1])
         return (a, b, -(a + b) + d, dyadic(rng), dyadic(rng), dyadic(rng)), True
+    if kind == 'neg_zero':           # zero entries held as IEEE -0.0 (a unit load case times a negative factor): a trace of -0.0 is a zero indicator
+        b, _ = gen_tensor(rng, rng.choice(['pure_shear', 'pure_shear', 'zero', 'uniaxial', 'pure_shear_diag']))
+        return tuple(-x for x in b), True
     raise ValueError(kind)
 
 
 KINDS = ['general', 'general', 'general', 'decimal', 'decimal', 'near_hydrostatic', 'plane', 'diag', 'uniaxial', 'hydrostatic',
-         'pure_shear_diag', 'pure_shear', 'repeated', 'zero', 'zero_trace', 'dyadic', 'near_tie_diag', 'near_zero_trace']
+         'pure_shear_diag', 'pure_shear', 'repeated', 'zero', 'zero_trace', 'dyadic', 'near_tie_diag', 'near_zero_trace', 'neg_zero']
 
 PERM_QUATS = [(1, 0, 0, 0), (1, 1, 0, 0), (1, 0, 1, 0), (1, 0, 0, 1), (0, 1, 0, 0), (0, 0, 1, 0), (0, 0, 0, 1), (1, 1, 1, 1), (1, -1, 1, 1),
               (0, 1, 1, 0), (0, 1, 0, 1), (0, 0, 1, 1), (1, -1, 0, 0), (1, 1, -1, 1), (0, 1, -1, 0)]
@@ -685,7 +688,7 @@ def run(res):
                         'floating-point rounding is outside the theorems; certificates / relations compare at 1e-9..1e-12 relative to the tensor norm, Mises with the '
                         'error bound of its radicand; signs are not compared when the indicator is zero only up to rounding (|indicator| <= 1e-9 norm, non-diagonal tensor)',
                         'stress magnitudes 1e-9..1e10 (squares neither overflow nor underflow); integer inputs up to 4e8 (int32) / 1e12 (int64, Python int)']
-    res.cov['rule'] = ('tensors from 18 kinds (general, decimal, near-hydrostatic, plane, diagonal, uniaxial, hydrostatic, pure shear, repeated eigenvalue, zero, zero trace, '
+    res.cov['rule'] = ('tensors from 19 kinds (negative zeros, general, decimal, near-hydrostatic, plane, diagonal, uniaxial, hydrostatic, pure shear, repeated eigenvalue, zero, zero trace, '
                        'dyadic, magnitude tie / trace zero up to 2^-8..2^-44) + corpus; rotations = integer quaternions (exactly orthogonal rational matrices; signed permutations for exact cases), factors 2^k and 10^u; '
                        'frames of 1..333 rows with 5 index kinds; int32/int64/Python-int inputs.  non-trivial = tensor with a non-zero shear component and three eigenvalues '
                        'separated by > 1e-6 norm, counted distinct by component tuple')
